@@ -1,13 +1,15 @@
 """Per-property claims: technique, what the level means, trusted base."""
 
 TRUST = ("Trusted: CPython's ast of the files under /repo/pddl_plus_parser (the library is never imported or run by the check); the "
-         "annotation-driven call / type resolution of the engine (resolution statistics are in every evidence file); the oracle tables "
+         "annotation-driven call / type resolution of the engine (resolution statistics are in every evidence file); the AST-level inlining of "
+         "private helpers into the public entry points the rules anchor on (sa/inline.py: parameter binding, return-as-jump, partial evaluation "
+         "of constant-bound parameters, loop-to-any normalisation -- semantics-preserving rewrites of a copy of the function); the oracle tables "
          "frozen in the rule modules (contracts, exclusions), each with its reason. ")
 
 
 def register(claim):
     claim("C01",
-          "path enumeration over statement CFGs of the parser dispatch loops (no-silent-drop, head-strip), finite guard valuation (polarity), table and arm coverage",
+          "path enumeration over statement CFGs of the parser dispatch loops (no-silent-drop), finite guard valuation over head tests (head-strip, polarity, constant-valuation of section dispatch), table and arm coverage; public entry points with helpers inlined",
           "Decides necessary conditions of faithful-or-rejected parsing for every domain text at once: on every acyclic path through each node "
           "handler the node is consumed or rejected; a stripped head is pinned or kept; (not ..) polarity and (in)equality routing; one arm per "
           "section storing into the matching field; length-guarded positional operands; accepted operators have evaluator entries; trailing typed-list "
@@ -15,7 +17,7 @@ def register(claim):
           TRUST + "Findings recorded as known (repeated arguments collapse in name-keyed signatures) are listed in known_findings.json.",
           "DESIGN.md 4/C01")
     claim("C02",
-          "isinstance-dispatch arm analysis, abstract truth tables, finite valuation of the literal evaluator, def-use provenance",
+          "class valuation of isinstance dispatch on the flattened evaluator / translator (statements executed per operand class), abstract truth tables, finite valuation of the literal evaluator, valuation-aware def-use provenance",
           "Decides the structural clauses of 'applicable iff precondition true': operator tables, literal truth value over (polarity, membership), "
           "every operand class translated-and-attached or rejected, fold identity and per-arm folding, (in)equality semantics, subtype range of "
           "quantifiers, pass-through of Operator.is_applicable. Truth of whole formulas in whole states is not decided. On the current tree the check "
@@ -55,7 +57,7 @@ def register(claim):
           "shared objects the thread-interleaving clause follows. Mutation by user code through remaining aliases is not decided.",
           TRUST + "261 obligations (237 entry points) on the current tree; UNKNOWN-provenance writes are counted (0 today).", "DESIGN.md 4/C07")
     claim("C08",
-          "backward slicing for field coverage, string-template extraction (polarity, keywords, parenthesis balance), provenance (order, options)",
+          "backward slicing for field coverage, abstract evaluation of string-building code into string shapes (polarity, typed lists, parenthesis balance, value text), keyword sets, provenance (order, options); public printers with helpers inlined",
           "Decides: each domain printer's text depends on every declared field of what it prints; negative literal text is '(not '+positive+')'; "
           "written keywords are reader heads; templates are balanced; signatures are printed in order; print options reach nested prints (known "
           "finding: they do not). Equality after re-parsing is not decided.",
